@@ -99,6 +99,20 @@ func initOnce(property string) {
 	out.KnownHits = map[string]int64{}
 	out.Notes = map[string]string{}
 	outPath = os.Getenv("VERIF_OUT")
+	for _, a := range os.Args {
+		if strings.HasPrefix(a, "-test.fuzzworker") && outPath != "" {
+			// native fuzz worker process: own output file, flushed periodically
+			// because the coordinator may kill the worker at the end of the campaign
+			outPath = fmt.Sprintf("%s.worker%d", outPath, os.Getpid())
+			go func() {
+				for {
+					time.Sleep(1500 * time.Millisecond)
+					Flush()
+				}
+			}()
+			break
+		}
+	}
 	replayDir = os.Getenv("VERIF_REPLAY_DIR")
 	if p := os.Getenv("VERIF_KNOWN"); p != "" {
 		if b, err := os.ReadFile(p); err == nil {
